@@ -83,7 +83,7 @@ pub fn draw_cfg(rng: &mut Rng, profile: Profile, thorough: bool) -> ArrayCfg {
     };
     let alloc_mode = rng.below(3) as u8;
     // now and then a much larger shape with a short history (thorough tier)
-    let big = thorough && rng.chance(1, 48);
+    let big = rng.chance(1, if thorough { 48 } else { 96 });
     let max_dim = if big { rng.range(9, 32) } else if thorough { rng.range(1, 8) } else { rng.range(1, 6) };
     let n_steps = if big { rng.range(3, 12) } else if thorough { rng.range(4, 80) } else { rng.range(3, 40) };
     let mut w = [0u32; N_FAM];
